@@ -3,6 +3,7 @@
 package absnfs
 
 import (
+	"crypto/tls"
 	"bufio"
 	"encoding/binary"
 	"fmt"
@@ -245,6 +246,7 @@ func TestVerif_C15(t *testing.T) {
 	rec.Rule = "byte streams sent to a server in its own child process over TCP with record marking: pure random bytes; valid calls for every procedure mutated by bit flips, corruption of length fields (fragment, record, string, opaque, count, gid count) and truncation at every byte with half-close; declared lengths up to 2^32-1 with tiny payloads (allocation measured in the child); many tiny fragments; pipelined valid calls (order check); a fresh probe connection (NULL + GETATTR) after every batch; distinct = (stream class, procedure, server reaction) tuples"
 	defer rec.Write()
 	vfC15StallMidRecord(rec)
+	vfC15StalledTLSHandshake(rec)
 	child, err := vfStartChild(0)
 	if err != nil {
 		rec.Infra("cannot start the server child: " + err.Error())
@@ -849,6 +851,84 @@ func vfC15StallMidRecord(rec *evid.Rec) {
 			}
 			rec.Distinct(fmt.Sprintf("stall-mid-record|stall=%v|cut=%d|replies=%d|foreign=%v", stall, cut, len(xids), foreign))
 			srv.Close()
+		}
+	}
+}
+
+// vfC15StalledTLSHandshake: a TLS export. One client connects, sends the first three bytes of a
+// handshake record and goes silent. Other clients must still be served: fresh connections complete
+// their handshake and get their NULL call answered. If they do not, the verdict is structural: the
+// accept loop's goroutine sits inside a TLS handshake in two goroutine dumps 2 s apart (so nobody
+// accepts any more); anything else is inconclusive.
+func vfC15StalledTLSHandshake(rec *evid.Rec) {
+	pki, err := vfNewPKI()
+	if err != nil {
+		rec.Inconclusive(1)
+		return
+	}
+	defer os.RemoveAll(pki.dir)
+	n, s, err := vfC30Start(&TLSConfig{Enabled: true, CertFile: pki.srvCert, KeyFile: pki.srvKey, MinVersion: tls.VersionTLS12, MaxVersion: tls.VersionTLS13})
+	if err != nil {
+		rec.Inconclusive(1)
+		return
+	}
+	defer func() { s.Stop(); n.Close() }()
+	port := s.GetPort()
+	if ok, _, _, _ := vfTLSNull(port, pki.roots, tls.VersionTLS12, tls.VersionTLS13, nil, true); !ok {
+		rec.Inconclusive(1)
+		return
+	}
+	var stalled []net.Conn
+	defer func() {
+		for _, c := range stalled {
+			c.Close()
+		}
+	}()
+	for _, prefix := range [][]byte{{0x16, 0x03, 0x01}, {}, {0x16}} {
+		c, err := net.DialTimeout("tcp", fmt.Sprintf("127.0.0.1:%d", port), 10*time.Second)
+		if err != nil {
+			rec.Inconclusive(1)
+			return
+		}
+		stalled = append(stalled, c)
+		if len(prefix) > 0 {
+			c.Write(prefix)
+		}
+		time.Sleep(100 * time.Millisecond)
+		served := 0
+		for i := 0; i < 2; i++ {
+			rec.Eval(1)
+			if ok, _, _, _ := vfTLSNull(port, pki.roots, tls.VersionTLS12, tls.VersionTLS13, nil, true); ok {
+				served++
+			}
+		}
+		outcome := "others-served"
+		if served < 2 {
+			inHandshake := func() string {
+				buf := make([]byte, 8<<20)
+				buf = buf[:runtime.Stack(buf, true)]
+				for _, g := range strings.Split(string(buf), "\n\n") {
+					if strings.Contains(g, "absnfs.(*Server).acceptLoop") && strings.Contains(g, "crypto/tls.(*Conn)") {
+						lines := strings.Split(g, "\n")
+						return strings.Join(lines[:min64i(len(lines), 12)], "\n")
+					}
+				}
+				return ""
+			}
+			first := inHandshake()
+			time.Sleep(2 * time.Second)
+			second := inHandshake()
+			if first != "" && second != "" {
+				outcome = "accept-loop-stuck-in-a-handshake"
+				rec.Violate("C15/one-stalled-tls-handshake-stops-the-server-accepting", fmt.Sprintf("a client sent %d bytes of a TLS handshake and went silent; %d of 2 fresh TLS clients were served afterwards, and the accept loop's goroutine sits inside a TLS handshake in two goroutine dumps 2 s apart", len(prefix), served), map[string]any{"accept_loop": second})
+			} else {
+				outcome = "others-not-served-inconclusive"
+				rec.Inconclusive(1)
+			}
+		}
+		rec.Distinct(fmt.Sprintf("stalled-tls-handshake|prefix=%d|%s", len(prefix), outcome))
+		if outcome != "others-served" {
+			return
 		}
 	}
 }
